@@ -99,7 +99,7 @@ func TestVerifC43RepoFallback(t *testing.T) {
 	rapid.Check(t, func(t *rapid.T) {
 		ctx := context.Background()
 		version := uint(rapid.IntRange(1, 2).Draw(t, "version"))
-		comp := rapid.SampledFrom([]CompressionMode{CompressionOff, CompressionAuto, CompressionFastest}).Draw(t, "compression")
+		comp := rapid.SampledFrom([]CompressionMode{CompressionOff, CompressionOff, CompressionOff, CompressionFastest, CompressionFastest, CompressionFastest, CompressionFastest, CompressionAuto}).Draw(t, "compression")
 		tpe := rapid.SampledFrom([]restic.BlobType{restic.DataBlob, restic.TreeBlob}).Draw(t, "type")
 		fbe := &vFaultBeC43{Backend: mem.New()}
 		repo, err := newRepoC43(fbe, version, Options{Compression: comp})
